@@ -53,11 +53,16 @@ Odd  == SFun("odd", <<"n">>, << SIf(Bin("==", Id("n"), Num(0)), SReturn(Lit(VBoo
 Ack  == SFun("ack", <<"m", "n">>, << SIf(Bin("==", Id("m"), Num(0)), SReturn(Bin("+", Id("n"), Num(1))), None),
                                      SIf(Bin("==", Id("n"), Num(0)), SReturn(Call(Id("ack"), <<Bin("-", Id("m"), Num(1)), Num(1)>>)), None),
                                      SReturn(Call(Id("ack"), <<Bin("-", Id("m"), Num(1)), Call(Id("ack"), <<Id("m"), Bin("-", Id("n"), Num(1))>>)>>)) >>)
+Weave == SFun("w", <<"d", "acc">>, << SIf(Bin("==", Id("d"), Num(0)), SReturn(Id("acc")), None),
+                                      SReturn(Call(Id("w"), <<Bin("-", Id("d"), Num(1)), Bin("+", Call(Id("w"), <<Bin("-", Id("d"), Num(1)), Id("acc")>>), Id("d"))>>)) >>)
 RecCases ==
      { [t |-> <<Fact, SPrint(Call(Id("fact"), <<Num(n)>>))>>, c |-> "rec:fact", key |-> "rec:fact" \o IntStr(n)] : n \in 1..6 }
   \cup { [t |-> <<Fib, SPrint(Call(Id("fib"), <<Num(n)>>))>>, c |-> "rec:fib", key |-> "rec:fib" \o IntStr(n)] : n \in 0..6 }
   \cup { [t |-> <<Even, Odd, SPrint(Call(Id("even"), <<Num(n)>>)), SPrint(Call(Id("odd"), <<Num(n)>>))>>, c |-> "rec:evenodd", key |-> "rec:evenodd" \o IntStr(n)] : n \in 0..5 }
-  \cup { [t |-> <<Ack, SPrint(Call(Id("ack"), <<Num(m), Num(n)>>))>>, c |-> "rec:ack", key |-> "rec:ack" \o IntStr(m) \o "," \o IntStr(n)] : m \in 0..2, n \in 0..2 }
+  \cup { [t |-> <<Ack, SPrint(Call(Id("ack"), <<Num(m), Num(n)>>))>>, c |-> "rec:ack", key |-> "rec:ack" \o IntStr(m) \o "," \o IntStr(n)] : m \in 0..2, n \in 0..3 }
+  \cup { [t |-> <<Ack, Weave>> \o [i \in 1..4 |-> SPrint(Call(Id("ack"), <<Num(IF i = 1 THEN 1 ELSE 2), Num(i - 1)>>))]
+                 \o [i \in 1..3 |-> SPrint(Call(Id("w"), <<Num(i), Num(0)>>))],
+          c |-> "rec:reentrant-call-sites", key |-> "rec:reentrant-call-sites"] }
 
 (* ---- (c) closures: two instances of a factory, two sibling closures each, every interleaving of calls ---- *)
 Make == SFun("make", <<"s">>, << SVar("n", Id("s")),
